@@ -11,7 +11,17 @@ from ..env import ptn
 
 BIG = 160        # Krylov dimension >= every local problem met here (largest: two-site tensor 9 x 9 x 9 / d^2 D^2 <= 144); Lanczos stops on exhaustion
 
+def _herm_cf(d):
+    def mk(L, p):
+        # harness-built complex Hermitian MPO without charges (seeded by the generic parameters)
+        r = np.random.default_rng(abs(int(p[0] * 1e9)) % (2 ** 32))
+        return gen.rand_hermitian_mpo(r, np.zeros(d, dtype=int), L, Dmax=2, kind='complex')
+    return mk
+
+
 MODELS = {
+    'herm2': (_herm_cf(2), [0, 0]),
+    'herm3': (_herm_cf(3), [0, 0, 0]),
     'xxz': (lambda L, p: ptn.heisenberg_xxz_mpo(L, *p), [1, -1]),
     'xxz1': (lambda L, p: ptn.heisenberg_xxz_spin1_mpo(L, *p), [1, 0, -1]),
     'bose3': (lambda L, p: ptn.bose_hubbard_mpo(3, L, *p), [0, 1, 2]),
@@ -23,10 +33,10 @@ def sector_list(qd, L):
     return sorted(set(sum(c) for c in itertools.product([int(x) for x in qd], repeat=L)))
 
 
-def prepare(rng, name, L, qtot):
+def prepare(rng, name, L, qtot, kind='complex'):
     mk, qd = MODELS[name]
     H = mk(L, gen.generic_params(rng))
-    psi = gen.full_sector_mps(rng, qd, L, qtot)
+    psi = gen.full_sector_mps(rng, qd, L, qtot, kind=kind)
     if np.linalg.norm(refs.dense_state(psi.A)) == 0:
         return H, None
     psi.orthonormalize('left')
@@ -55,7 +65,8 @@ def make_exact(cases):
     def fn(ctx, idx, rng):
         name, L, qtot = cases[idx % len(cases)]
         rep = idx // len(cases)
-        H, psi = prepare(rng, name, L, qtot)
+        kind = ('complex', 'real')[(idx + rep) % 2]
+        H, psi = prepare(rng, name, L, qtot, kind)
         if psi is None:
             ctx.case((name, f'L{L}', 'empty-sector'), nontrivial=False)
             return
@@ -74,7 +85,7 @@ def make_exact(cases):
                 continue
             integ = 'twosite' if two else 'singlesite'
             fnc = ptn.integrate_local_twosite if two else ptn.integrate_local_singlesite
-            ctx.case((integ, name, f'L{L}', f'class{cls}', dtk, f'steps{nsteps}'), sample={'model': name, 'L': L, 'sector': qtot, 'bond_dims': psi.bond_dims, 'class': cls, 'dt': dt, 'steps': nsteps},
+            ctx.case((integ, name, f'L{L}', f'class{cls}', dtk, f'steps{nsteps}', kind + '-state'), sample={'model': name, 'L': L, 'sector': qtot, 'bond_dims': psi.bond_dims, 'class': cls, 'dt': dt, 'steps': nsteps},
                      info={'model': name, 'L': L, 'sector': qtot, 'qD': psi.qD, 'A': psi.A, 'H_A': H.A, 'H_qD': H.qD, 'dt': dt, 'steps': nsteps, 'integrator': integ})
             detail = ctx.cur_info
             exact = expm(-dt * nsteps * mH) @ v0
@@ -107,7 +118,8 @@ def make_exact(cases):
 
 
 def reversibility(ctx, idx, rng):
-    src = str(rng.choice(['xxz', 'xxz1', 'bose3', 'ising', 'hermitian']))
+    src = str(rng.choice(['xxz', 'xxz1', 'bose3', 'ising', 'hermitian', 'hermitian']))
+    kind = str(rng.choice(['complex', 'real']))
     if src == 'hermitian':
         d = int(rng.choice([2, 3]))
         L = int(rng.integers(1, 6 if d == 2 else 4))
@@ -120,7 +132,7 @@ def reversibility(ctx, idx, rng):
         H = mk(L, gen.generic_params(rng))
     prof = str(rng.choice(['random', 'one', 'max', 'over']))
     for _ in range(20):
-        psi = gen.rand_mps(rng, H.qd, L, prof, Dmax=4)
+        psi = gen.rand_mps(rng, H.qd, L, prof, Dmax=4, kind=kind)
         if np.linalg.norm(refs.dense_state(psi.A)) > 1e-8:
             break
         prof = 'max'
@@ -137,7 +149,7 @@ def reversibility(ctx, idx, rng):
     # mechanism classifier (input structure only): a bond larger than the Schmidt rank it carries
     ranks = [1] + [int(np.sum(np.linalg.svd(v0.reshape(d ** c, -1), compute_uv=False) > 1e-10)) for c in range(1, L)] + [1]
     deficient = ranks != list(psi.bond_dims)
-    ctx.case(('reversibility', src, f'L{L}', prof, dtk, f'steps{n}', 'rank-deficient-bond' if deficient else 'full-rank-bonds'), sample={'model': src, 'L': L, 'qD': psi.qD, 'dt': dt, 'steps': n},
+    ctx.case(('reversibility', src, f'L{L}', prof, dtk, f'steps{n}', 'rank-deficient-bond' if deficient else 'full-rank-bonds', kind + '-state'), sample={'model': src, 'L': L, 'qD': psi.qD, 'dt': dt, 'steps': n},
              info={'model': src, 'L': L, 'qd': H.qd, 'qD': psi.qD, 'A': psi.A, 'H_A': H.A, 'H_qD': H.qD, 'dt': dt, 'steps': n})
     detail = ctx.cur_info
     p = copy.deepcopy(psi)
@@ -163,7 +175,7 @@ EX_T = make_exact(CASES)
 
 SPEC = {
     'id': 'C09',
-    'rule': ('exactness: every total-charge sector of XXZ, spin-1 XXZ, Bose d=3, Ising for every L with d^L <= 243 (XXZ <= 1024; quick L <= 4), a generic '
+    'rule': ('states of real and complex dtype, real model MPOs and harness-built complex Hermitian MPOs; exactness: every total-charge sector of XXZ, spin-1 XXZ, Bose d=3, Ising for every L with d^L <= 243 (XXZ <= 1024; quick L <= 4), a generic '
              'full-sector state with maximal bond dimensions, both integrators, dt imaginary / real / complex (|dt| in [0.05, 0.3]), 1..3 steps, Krylov '
              'dimension >= local dimension. The manifold is classified from the quantum numbers alone: class E (every bond saturated on one side for all '
              'charge blocks) must be exact to 1e-9; class M (sector-complete, mixed saturation) is the known finding and must still obey the third-order '
